@@ -1,6 +1,10 @@
 """Which Lean theorems carry which property (audited with #print axioms on every run)."""
 
 THEOREMS: dict[str, list[str]] = {
+    "C01": [
+        "Rbacx.C01.c01_allowed_iff_permit", "Rbacx.C01.c01_allowed_iff_permit_guard", "Rbacx.C01.c01_permit_has_witness",
+        "Rbacx.C01.c01_none_applicable_denies", "Rbacx.C01.c01_empty_policy",
+    ],
     "C02": [
         "Rbacx.C02.c02_deny_overrides",
         "Rbacx.C02.c02_permit_overrides",
